@@ -775,9 +775,14 @@ Qed.
     some states satisfying [St]); it is commented out and replaced by [reset_empty_partial].
     Four hypotheses are missing, each of them necessary:
 
-    (A) every archetype has a table. [create_archetype] followed by a failing [create_table]
-        leaves an archetype with [a_tables a = []] ([WF] allows it, see [wf_arch_norel_table]);
-        [arch_reset] then runs [match a_tables a with [] => fail EIndex], i.e. [w_reset s] is
+    (A) every archetype has a table. [WF] allows an archetype with [a_tables a = []] (see
+        [wf_arch_norel_table]). Before the repair of createArchetype such an archetype was left behind by
+        a creation that was rejected between createArchetype and createTable (a genuine defect of the Go
+        code, found by a proof attempt and repaired in /repo: createArchetype now creates the table of an
+        archetype without relation components itself); since the repair (A) holds in every reachable
+        state ([archs_tabled_norel] of WF.v: [archs_tabled_init], [find_or_create_table*_tabled] of
+        StorageA, [Inv4] / [inv4_reset_empty] of StorageD), but it is still not part of [St].
+        [arch_reset] runs [match a_tables a with [] => fail EIndex], i.e. [w_reset s] is
         [Err EIndex _] (Go: [a.tables[0]] panics with index out of range). Counterexample: any
         [St] world whose archetype list contains an archetype with [a_tables = []]; this is
         proved below as [reset_fails_without_table].
